@@ -26,6 +26,7 @@ META = {
     "assumptions": [],
 }
 META["claim"] += " " + 'Also: every sequencing history again with per-fragment delivery and with validation off; a quarter of the header space with trace logging switched on.'
+META["claim"] += " " + 'Round 4: sequencing after a message rejected for its payload (continuation forbidden, new data frame legal); long close reasons with a multi-byte sequence split around whole 2^n-byte ASCII blocks; ambient conditions drawn per connection.'
 
 import logging as _logging
 
